@@ -1,2 +1,166 @@
-use crate::harness::Gen;
-pub fn gens() -> Vec<Gen> { vec![] }
+//! C14: every disclosure gets a fresh, unpredictable salt of at least 128 bits.
+
+use crate::harness::{fail, Gen, Verdict};
+use crate::oracle::{embedded_digests, DiscIndex, Strategy};
+use crate::rng::Rng;
+use crate::sut::{self, Out};
+use crate::util::{b64d, decode_disclosure, digest, Parts, FAR_EXP, J};
+use serde_json::json;
+use std::collections::HashMap;
+use std::sync::{Arc, Barrier};
+
+pub fn gens() -> Vec<Gen> {
+    vec![Gen { name: "c14.salts", prop: "C14", tags: &["salt", "generate_salt", "decoy", "thread", "src/utils.rs", "src/issuer.rs"], cases, check }]
+}
+
+fn cases(_rng: &mut Rng, sink: &mut dyn FnMut(J) -> bool) {
+    let mut n = 0;
+    for (threads, per_thread) in [(1usize, 20usize), (2, 20), (4, 50), (8, 50), (1, 300), (3, 100), (8, 200), (5, 400), (8, 1000), (16, 1000)] {
+        for reuse_issuer in [true, false] {
+            for same_claims in [true, false] {
+                n += 1;
+                let alg = ["ES256", "EdDSA", "HS256"][n % 3];
+                if !sink(json!({"threads": threads, "per_thread": per_thread, "reuse_issuer": reuse_issuer, "same_claims": same_claims, "decoys": n % 4 != 0, "format": if n % 2 == 0 { "compact" } else { "json" }, "alg": alg})) {
+                    return;
+                }
+            }
+        }
+    }
+}
+
+struct Collected {
+    salts: Vec<(String, String)>,   // (salt, where)
+    decoys: Vec<(String, String)>,  // (digest, where)
+    problems: Vec<String>,
+}
+
+fn worker(t: usize, per_thread: usize, reuse: bool, same_claims: bool, decoys: bool, format: &str, alg: &str) -> Collected {
+    let mut c = Collected { salts: vec![], decoys: vec![], problems: vec![] };
+    let mut issuer = sut::new_issuer(alg);
+    for i in 0..per_thread {
+        let claims = if same_claims {
+            json!({"iss": "i", "exp": FAR_EXP, "sub": "s", "a": {"b": 1, "c": [true, null]}, "d": "x"})
+        } else {
+            json!({"iss": "i", "exp": FAR_EXP, "sub": format!("s{t}-{i}"), "a": {"b": i, "c": [true, null]}, "d": "x"})
+        };
+        let out = if reuse {
+            sut::issue_on(&mut issuer, &claims, &Strategy::AllLevels, None, decoys, format)
+        } else {
+            sut::issue(alg, &claims, &Strategy::AllLevels, None, decoys, format)
+        };
+        let s = match out {
+            Out::Ok(s) => s,
+            o => {
+                c.problems.push(format!("thread {t} issuance {i}: {}", o.brief()));
+                return c;
+            }
+        };
+        let whre = format!("thread {t}, credential {i}");
+        let Some(parts) = Parts::parse(&s, format) else {
+            c.problems.push(format!("{whre}: not a {format} SD-JWT"));
+            return c;
+        };
+        let Some(payload) = parts.payload() else {
+            c.problems.push(format!("{whre}: payload does not decode"));
+            return c;
+        };
+        let idx = DiscIndex::new(&parts.disclosures);
+        let mut embedded = Vec::new();
+        embedded_digests(&J::Object(payload), &mut embedded);
+        for d in &parts.disclosures {
+            let Some(dec) = decode_disclosure(d) else {
+                c.problems.push(format!("{whre}: disclosure is not base64url(JSON)"));
+                continue;
+            };
+            embedded_digests(&dec, &mut embedded);
+            match dec.get(0).and_then(|s| s.as_str()) {
+                Some(salt) => c.salts.push((salt.to_string(), whre.clone())),
+                None => c.problems.push(format!("{whre}: disclosure {dec} has no string salt")),
+            }
+        }
+        if parts.disclosures.len() != 7 {
+            c.problems.push(format!("{whre}: {} disclosures, expected 7", parts.disclosures.len()));
+        }
+        for d in &parts.disclosures {
+            let dg = digest(d);
+            if embedded.iter().filter(|e| **e == dg).count() != 1 {
+                c.problems.push(format!("{whre}: SHA-256 of disclosure {} is embedded {} times (expected once)", decode_disclosure(d).map(|v| v.to_string()).unwrap_or_default(), embedded.iter().filter(|e| **e == dg).count()));
+            }
+        }
+        for e in embedded {
+            if !idx.by_digest.contains_key(&e) {
+                c.decoys.push((e, whre.clone()));
+            }
+        }
+    }
+    c
+}
+
+pub fn check(case: &J) -> Verdict {
+    let threads = case["threads"].as_u64().unwrap_or(1) as usize;
+    let per_thread = case["per_thread"].as_u64().unwrap_or(10) as usize;
+    let reuse = case["reuse_issuer"].as_bool().unwrap_or(false);
+    let same_claims = case["same_claims"].as_bool().unwrap_or(true);
+    let decoys = case["decoys"].as_bool().unwrap_or(true);
+    let format = case["format"].as_str().unwrap_or("compact").to_string();
+    let alg = case["alg"].as_str().unwrap_or("ES256").to_string();
+    let barrier = Arc::new(Barrier::new(threads));
+    let mut handles = Vec::new();
+    for t in 0..threads {
+        let (b, f, a) = (barrier.clone(), format.clone(), alg.clone());
+        handles.push(std::thread::spawn(move || {
+            b.wait();
+            worker(t, per_thread, reuse, same_claims, decoys, &f, &a)
+        }));
+    }
+    let mut salts: Vec<(String, String)> = Vec::new();
+    let mut decoy_digests: Vec<(String, String)> = Vec::new();
+    for h in handles {
+        match h.join() {
+            Ok(c) => {
+                if let Some(p) = c.problems.first() {
+                    return fail(p.clone(), "well-formed credentials whose embedded digests are the SHA-256 of the disclosure texts");
+                }
+                salts.extend(c.salts);
+                decoy_digests.extend(c.decoys);
+            }
+            Err(_) => return fail("a worker thread panicked", "no panic"),
+        }
+    }
+    // length
+    let mut bytes: Vec<Vec<u8>> = Vec::new();
+    for (s, w) in &salts {
+        match b64d(s) {
+            Some(b) if b.len() >= 16 => bytes.push(b),
+            Some(b) => return fail(format!("salt `{s}` ({w}) decodes to {} bytes", b.len()), "base64url of at least 16 random bytes"),
+            None => return fail(format!("salt `{s}` ({w}) is not base64url"), "base64url of at least 16 random bytes"),
+        }
+    }
+    // pairwise distinct
+    let mut seen: HashMap<&str, &str> = HashMap::new();
+    for (s, w) in &salts {
+        if let Some(prev) = seen.insert(s.as_str(), w.as_str()) {
+            return fail(format!("salt `{s}` used twice: {prev} and {w} ({} salts drawn on {threads} thread(s))", salts.len()), "no two salts are ever equal");
+        }
+    }
+    let mut seen: HashMap<&str, &str> = HashMap::new();
+    for (d, w) in &decoy_digests {
+        if let Some(prev) = seen.insert(d.as_str(), w.as_str()) {
+            return fail(format!("decoy digest `{d}` used twice: {prev} and {w}{}", if reuse { " (one issuer instance per thread, reused)" } else { "" }), "no two decoy digests are ever equal");
+        }
+    }
+    if decoys && decoy_digests.is_empty() {
+        return fail("decoys requested but no unmatched digest found", "decoy digests present");
+    }
+    // crude per-bit frequency over the first 16 bytes
+    let n = bytes.len() as f64;
+    if bytes.len() >= 500 {
+        for bit in 0..128 {
+            let ones = bytes.iter().filter(|b| b[bit / 8] >> (7 - bit % 8) & 1 == 1).count() as f64;
+            if (ones - n / 2.0).abs() > 4.0 * n.sqrt() {
+                return fail(format!("bit {bit} of the salts is 1 in {ones} of {n} salts"), "every bit within 8 sigma of 1/2");
+            }
+        }
+    }
+    Verdict::Pass
+}
